@@ -18,6 +18,9 @@
 (*                   keeps a stack of parenthesis depths instead, which     *)
 (*                   selects the same ')' on every text the parser accepts  *)
 (*                   up to that point (all grammar rules pair '(' and ')'). *)
+(*                   The sequence is closed by an eof token; a NUL byte     *)
+(*                   outside a string literal ends the text (Lex returns 0, *)
+(*                   goyacc's end marker), as does a NUL inside a comment.  *)
 (*                                                                         *)
 (* A token is [t, x, s, v, b, e]: type, detail (keyword / operator / char   *)
 (* as a TLC string), the bytes of the token text, the decoded code points   *)
